@@ -175,6 +175,7 @@ pub struct Driver {
     pub out_frames: Vec<Value>,
     pub preface_skipped: bool,
     pub pending_block: Option<Vec<u8>>,
+    pub poisoned: bool,
 }
 
 pub fn err_str(e: &h2::Error) -> String {
@@ -281,6 +282,7 @@ impl Driver {
             out_frames: Vec::new(),
             preface_skipped: false,
             pending_block: None,
+            poisoned: false,
         };
         // record the handshake output as step 0
         let hs = json!({"op":"handshake"});
@@ -432,9 +434,12 @@ impl Driver {
         }
         let wakes: Vec<u32> = std::mem::take(&mut *self.wake_log.lock().unwrap());
         let mut rec = json!({"i": self.step, "op": op, "res": res, "ev": evs, "out": out, "wakes": wakes});
-        if self.want_snap {
-            if let Some(s) = self.snapshot() {
-                rec["snap"] = snap_json(&s);
+        if self.want_snap && !self.poisoned {
+            // after a panic inside the library its mutex is poisoned: no further snapshots
+            match std::panic::catch_unwind(std::panic::AssertUnwindSafe(|| self.snapshot())) {
+                Ok(Some(s)) => rec["snap"] = snap_json(&s),
+                Ok(None) => {}
+                Err(_) => self.poisoned = true,
             }
         }
         {
